@@ -54,6 +54,7 @@ Next ==
   \/ \E r \in RuneArgs : (st.mode # MR \/ r < 128) /\
                          Do(Op("WR", <<>>, r), EncodeRune(r), ValidRune(r))
   \/ \E m \in Modes : m # st.mode /\ Do(Op("SM", <<>>, m), <<>>, TRUE)
+  \/ \E n \in {0, 100} : Do(Op("GR", <<>>, n), <<>>, TRUE)      \* ManualBuffer.Grow: content, mode and pending state untouched
   \/ Do(Op("RST", <<>>, 0), <<>>, TRUE)
   \/ Do(Op("TK", <<>>, 0), <<>>, TRUE)
 
